@@ -6,8 +6,8 @@
 // ops (one driver goroutine, in order):
 //
 //	o<i>:S | o<i>:P   connect session i to the SMTP/POP3 server, read the greeting       -> 220 | +OK | refused
-//	O<i>              connect SMTP session i and hold its goroutine at the start point     -> held | refused
-//	                  (verifhook "smtp.session.start": accepted, not yet started)
+//	O<i>[:S] | O<i>:P connect session i and hold its goroutine at the start point           -> held | refused
+//	                  (verifhook "smtp.session.start" / "pop3.session.start": accepted, not yet started)
 //	L<i>              release the held session, read the greeting                          -> 220
 //	p<i>:<state>      advance session i: SMTP helo|mail|rcpt|data|body, POP3 user|pass|dele -> last reply
 //	k                 cancel the context; wait until both Start calls have returned         -> .
@@ -61,13 +61,20 @@ type holdReq struct {
 	release chan struct{}
 }
 
-var holdNext atomic.Pointer[holdReq]
+var holdNext [2]atomic.Pointer[holdReq] // 0: SMTP, 1: POP3
 
 func hookHandler(site, arg string) {
-	if site != "smtp.session.start" {
+	p := -1
+	switch site {
+	case "smtp.session.start":
+		p = 0
+	case "pop3.session.start":
+		p = 1
+	}
+	if p < 0 {
 		return
 	}
-	if h := holdNext.Swap(nil); h != nil {
+	if h := holdNext[p].Swap(nil); h != nil {
 		close(h.parked)
 		<-h.release
 	}
@@ -340,7 +347,7 @@ func runLife(ops []string) []string {
 	outs := []string{}
 	// POP3 sessions need a message to delete: seed before anything else.
 	for _, o := range ops {
-		if len(o) > 1 && o[0] == 'o' && strings.HasSuffix(o, ":P") {
+		if len(o) > 1 && (o[0] == 'o' || o[0] == 'O') && strings.HasSuffix(o, ":P") {
 			i := vh.AtoI(strings.Split(o[1:], ":")[0])
 			if !w.seed(fmt.Sprintf("p%d", i)) {
 				w.cancel()
@@ -376,7 +383,8 @@ func runLife(ops []string) []string {
 		}
 	}
 	defer func() {
-		holdNext.Store(nil)
+		holdNext[0].Store(nil)
+		holdNext[1].Store(nil)
 		for _, c := range cs {
 			closeClient(c)
 		}
@@ -424,11 +432,11 @@ func runLife(ops []string) []string {
 			var h *holdReq
 			if o[0] == 'O' {
 				h = &holdReq{parked: make(chan struct{}), release: make(chan struct{})}
-				holdNext.Store(h)
+				holdNext[p].Store(h)
 			}
 			conn, err := net.DialTimeout("tcp", w.addr[p], longWait)
 			if err != nil {
-				holdNext.Store(nil)
+				holdNext[p].Store(nil)
 				outs = append(outs, "refused")
 				continue
 			}
@@ -442,7 +450,7 @@ func runLife(ops []string) []string {
 					w.openByProt[p]++
 					outs = append(outs, "held")
 				} else {
-					holdNext.Store(nil)
+					holdNext[p].Store(nil)
 					conn.Close()
 					outs = append(outs, "refused")
 				}
